@@ -7,7 +7,7 @@ from fvsym import ops
 BOUNDS = {
     "quick": "pre-state: any well-formed tree of skeleton 0/1/2/3-fiber, [1,1], [2,1], [1,0] (coordinates and values symbolic, so explicit "
              "defaults and all-default sub-fibers are models), unowned and tensor-owned; one public mutator with symbolic arguments "
-             "(__setitem__ at every position -n-1..n incl. negative spellings); 2-step histories on 1- and 2-fibers and all 3-step histories over {reference write, append, extend, position assignment, updateCoords} on a 1-fiber",
+             "(__setitem__ at every position -n-1..n incl. negative spellings); 2-step histories on 1- and 2-fibers and all 3-step histories over {reference write, append, extend, position assignment, updateCoords} on a 1-fiber; injective-table updateCoords (every new coordinate symbolic), element (CoordPayload) right operands of in-place arithmetic, deprecated insert / insertOrLookup, Tensor.__setitem__, populate bodies that only reach below the offered sub-fiber (depth 3), clearing a non-root fiber, start_pos reference access; pinned counterparts (tree coordinates fixed at 0,2,4,.. per fiber) of the obligations measured slow",
     "thorough": "adds 3-fibers for every op, [2,2] and [[1,1]] skeletons, 2-step histories over all op pairs and selected 3-step histories",
 }
 OUTSIDE = ("histories longer than the bound that depend on hidden state other than coords/payloads/saved position; non-injective "
